@@ -424,6 +424,120 @@ theorem set_field_emitted (p : Pay) (k : String) (v : Val) (hk : tableKind k = n
   rw [marshal_get _ hk]
   simp [Pay.set, hk, AList.get_put]
 
+/-! ## `/1/events` (JSON): the whole object is memoised -/
+
+theorem goNormM_eq (l : List (String × Val)) : goNormM l = l.map (fun kv => (kv.1, goNorm kv.2)) := by
+  induction l with
+  | nil => rfl
+  | cons p t ih => obtain ⟨a, b⟩ := p; simp [goNormM, ih]
+
+theorem dedup_fold_nodup : ∀ (l acc : List (String × Val)), AList.NoDupKeys acc →
+    AList.NoDupKeys (l.foldl (fun a kv => AList.put a kv.1 kv.2) acc)
+  | [], _, h => h
+  | _ :: t, _, h => dedup_fold_nodup t _ (AList.nodup_put _ h _ _)
+
+theorem dedup_fold_get (k : String) : ∀ (l acc : List (String × Val)), (keysOf l).Nodup →
+    AList.get (l.foldl (fun a kv => AList.put a kv.1 kv.2) acc) k = (AList.get l k).orElse (fun _ => AList.get acc k)
+  | [], acc, _ => by simp
+  | (a, b) :: t, acc, hnd => by
+    have hnd' : (keysOf t).Nodup := (List.nodup_cons.mp hnd).2
+    have ha : a ∉ AList.keys t := (List.nodup_cons.mp hnd).1
+    simp only [List.foldl_cons]
+    rw [dedup_fold_get k t _ hnd', AList.get_put, AList.get_cons]
+    by_cases e : a = k
+    · subst e
+      simp [(AList.get_eq_none_iff t a).mpr ha]
+    · simp [e]
+
+theorem memoOfJSON_get {fs : List (String × Val)} (hnd : (keysOf fs).Nodup) (k : String) :
+    AList.get (memoOfJSON fs) k = (AList.get fs k).map goNorm := by
+  unfold memoOfJSON dedupKeys
+  have h1 : (keysOf (goNormM fs)).Nodup := by
+    rw [goNormM_eq]; unfold keysOf; rw [List.map_map]; exact hnd
+  rw [dedup_fold_get k _ _ h1, goNormM_eq, get_map_val]
+  cases AList.get fs k <;> simp
+
+theorem memoOfJSON_nodup (fs : List (String × Val)) : AList.NoDupKeys (memoOfJSON fs) :=
+  dedup_fold_nodup _ _ AList.nodup_nil
+
+/-- invariant of a `/1/events` payload: nothing in the raw bytes, every client key memoised -/
+def InvJ (fs : List (String × Val)) (S : List String) (p : Pay) : Prop :=
+  p.raw = [] ∧ AList.NoDupKeys p.memo ∧ ∀ k, k ∉ S → AList.get p.memo k = (AList.get fs k).map goNorm
+
+theorem extractMap_memo {cfg : Cfg} {f2i : Nat → Int} {p p' : Pay} {ord : List (String × Val)}
+    (hr : p.raw = []) (h : extractMap cfg f2i p ord = some p') : p'.memo = p.memo ∧ p'.raw = [] := by
+  unfold extractMap at h
+  split at h
+  · cases h; exact ⟨rfl, hr⟩
+  · simp only [hr, List.isEmpty_nil, if_true, Option.some.injEq] at h
+    subst h
+    exact ⟨rfl, rfl⟩
+
+theorem ingestMap_inv {cfg : Cfg} {f2i : Nat → Int} {fs ord : List (String × Val)} {p0 : Pay}
+    (hnd : (keysOf fs).Nodup) (h : ingestMap cfg f2i fs ord = some p0) : InvJ fs [] p0 := by
+  unfold ingestMap at h
+  split at h
+  · cases h
+  · have hr : (addUA cfg { memo := memoOfJSON fs }).raw = [] := by rw [addUA_raw]
+    obtain ⟨h1, h2⟩ := extractMap_memo hr h
+    refine ⟨h2, ?_, ?_⟩
+    · rw [h1, addUA_memo]; exact memoOfJSON_nodup fs
+    · intro k _
+      rw [h1, addUA_memo]; exact memoOfJSON_get hnd k
+
+theorem memoize_invJ {fs : List (String × Val)} {S : List String} {p : Pay} (ks : List String)
+    (h : InvJ fs S p) : InvJ fs S (memoize p ks) := by
+  unfold memoize
+  simp only
+  split
+  · exact h
+  · simp only [h.1, List.foldl_nil]
+    exact ⟨rfl, h.2.1, h.2.2⟩
+
+theorem set_invJ {fs : List (String × Val)} {S : List String} {p : Pay} (k : String) (v : Val)
+    (h : InvJ fs S p) : InvJ fs (k :: S) (p.set k v) := by
+  unfold Pay.set
+  cases hk : tableKind k with
+  | some kd => exact ⟨h.1, h.2.1, fun k' hk' => h.2.2 k' (fun hm => hk' (List.mem_cons_of_mem _ hm))⟩
+  | none =>
+    refine ⟨h.1, AList.nodup_put _ h.2.1 _ _, fun k' hk' => ?_⟩
+    simp only
+    rw [AList.get_put]
+    have hne : k ≠ k' := fun e => hk' (by rw [e]; exact List.mem_cons_self)
+    simp only [hne, if_false]
+    exact h.2.2 k' (fun hm => hk' (List.mem_cons_of_mem _ hm))
+
+theorem invJ_mono {fs : List (String × Val)} {S S' : List String} {p : Pay} (hsub : ∀ k ∈ S, k ∈ S')
+    (h : InvJ fs S p) : InvJ fs S' p :=
+  ⟨h.1, h.2.1, fun k hk => h.2.2 k (fun hm => hk (hsub k hm))⟩
+
+theorem applyOps_invJ {fs : List (String × Val)} :
+    ∀ (ops : List Op) (S : List String) (p : Pay), InvJ fs S p → InvJ fs (setKeys ops ++ S) (applyOps p ops)
+  | [], S, p, h => by simpa [applyOps, setKeys] using h
+  | .memo ks :: t, S, p, h => by
+    have := applyOps_invJ t S (memoize p ks) (memoize_invJ ks h)
+    simpa [applyOps, setKeys, applyOp] using this
+  | .set k v :: t, S, p, h => by
+    have := applyOps_invJ t (k :: S) (p.set k v) (set_invJ k v h)
+    refine invJ_mono ?_ (by simpa [applyOps, applyOp] using this)
+    intro x hx
+    simp only [setKeys, List.mem_append, List.mem_cons] at hx ⊢
+    rcases hx with hx | hx | hx
+    · exact Or.inl (Or.inr hx)
+    · exact Or.inl (Or.inl hx)
+    · exact Or.inr hx
+
+/-- **marshal_extract_id** (`/1/events`, JSON) — every non-reserved key Refinery did not `Set` is
+emitted exactly when the client sent it, with the client's value through Go and back, for every
+iteration order `ord` and every `MemoizeFields` / `Set` history. -/
+theorem marshal_extract_id_events {cfg : Cfg} {f2i : Nat → Int} {fs ord : List (String × Val)} {p0 : Pay}
+    (ops : List Op) (hnd : (keysOf fs).Nodup) (h0 : ingestMap cfg f2i fs ord = some p0) {k : String}
+    (hk : tableKind k = none) (hS : k ∉ setKeys ops) :
+    AList.get (marshal (applyOps p0 ops)) k = (AList.get fs k).map rt := by
+  have h := applyOps_invJ ops [] p0 (ingestMap_inv hnd h0)
+  rw [marshal_get _ hk, h.1, h.2.2 k (by simpa using hS)]
+  cases AList.get fs k <;> simp [rt]
+
 /-! ## Through Go and back: `memo_roundtrip` -/
 
 /-- full-strength statement: a memoised value is written back with the wire type it came with -/
